@@ -304,13 +304,14 @@ ScriptLow(x, K) ==
 ScriptOf(x, K, layout) ==
     LET base == <<[op |-> "from_aff", p |-> 0, l |-> 0, a |-> x.a]>> \o BuildOps(x, 0, 1, layout = "rev").ops
     IN IF layout = "low" /\ K = 2 /\ x.t = "D" /\ x.kids[1].t = "D" /\ (\E j \in 1..2 : x.kids[1].kids[j].t # "M") THEN ScriptLow(x, K)
-       ELSE IF layout # "hole" \/ Len(base) < 2 THEN base
+       ELSE IF layout \notin {"hole", "holed"} \/ Len(base) < 2 THEN base
        ELSE \* after the second op (first child, index 1) add a dummy below it; remove the dummy at the end
             LET d == [op |-> "add_child", p |-> 1, l |-> 0, a |-> base[2].a] IN
             IF x.kids[1].t = "D" \/ (x.kids[1].t = "M" /\ x.kids[2].t = "D") THEN base       \* first child must be a terminal
             ELSE <<base[1], base[2], d>> \o [j \in 1..(Len(base) - 2) |->
                       LET o == base[j + 2] IN [o EXCEPT !.p = IF o.p >= 2 THEN o.p + 1 ELSE o.p]]
-                 \o <<[op |-> "remove_child", p |-> 1, l |-> 0, a |-> base[2].a]>>
+                 \* "holed": the dummy is removed with remove_all_descendants(1) instead of remove_child(1, 0)
+                 \o <<[op |-> IF layout = "holed" THEN "remove_desc" ELSE "remove_child", p |-> 1, l |-> 0, a |-> base[2].a]>>
 
 RECURSIVE RunOps(_, _, _, _)
 RunOps(t, ops, j, K) ==
@@ -318,7 +319,9 @@ RunOps(t, ops, j, K) ==
     ELSE LET o == ops[j] IN
          RunOps(CASE o.op = "from_aff" -> FromAff(o.a, K)
                   [] o.op = "add_child" -> AddChild(t, o.p, o.l, o.a)
-                  [] o.op = "remove_child" -> RemoveChild(t, o.p, o.l), ops, j + 1, K)
+                  [] o.op = "remove_child" -> RemoveChild(t, o.p, o.l)
+                  \* remove_all_descendants(p) where the only descendant is the terminal under label l: same effect
+                  [] o.op = "remove_desc" -> RemoveChild(t, o.p, o.l), ops, j + 1, K)
 BuildTree(x, K, layout) == RunOps(<<>>, ScriptOf(x, K, layout), 1, K)
 
 \* observable projection (what the harness records): nodes without the slab free list
